@@ -90,6 +90,10 @@ def run(tier):
                     # DESCRIBE and execution must agree on whether the statement is well-typed (runtime errors excepted)
                     if d.get("outcome") == "error" and o.get("outcome") == "rows" and q.upper().startswith(("SELECT", "WITH")):
                         add({"kind": "agree", "outcome": "describe-fails-but-statement-runs"}, info)
+                    # unions and the statement shapes of the misc list cannot fail at run time on these two rows: a schema was
+                    # announced, so failing to produce it is a disagreement between the announcement and the execution
+                    if d.get("outcome") == "rows" and o.get("outcome") == "error" and kind in ("union", "misc"):
+                        add({"kind": "agree", "outcome": "announced-but-execution-fails"}, info)
                 else:
                     bad = o if o.get("outcome") not in ("rows", "error") else d
                     add({"kind": "agree", "outcome": bad.get("outcome")}, dict(info, msg=(bad.get("msg") or "")[:200]))
